@@ -69,6 +69,26 @@ def _atomic(repo: Repo, f: FunctionInfo, defs: Defs, e, depth=0) -> Optional[str
         return None
     if isinstance(e, ast.Constant):
         return "literal"
+    if isinstance(e, ast.IfExp):
+        a, b = _atomic(repo, f, defs, e.body, depth + 1), _atomic(repo, f, defs, e.orelse, depth + 1)
+        return a if a and b else None
+    if isinstance(e, ast.BinOp) and isinstance(e.op, (ast.Add, ast.Sub, ast.Mult, ast.FloorDiv)):
+        # integer arithmetic on integers is one numeric token when rendered
+        def intlike(x):
+            if isinstance(x, ast.Constant) and isinstance(x.value, int):
+                return True
+            if isinstance(x, ast.Call) and call_name(x) in ("len", "int", "index"):
+                return True
+            if isinstance(x, ast.Attribute) and (x.attr.endswith("size") or x.attr.startswith("num_") or x.attr.endswith("count")):
+                return True
+            if isinstance(x, ast.BinOp) and isinstance(x.op, (ast.Add, ast.Sub, ast.Mult, ast.FloorDiv)):
+                return intlike(x.left) and intlike(x.right)
+            if isinstance(x, ast.Name):
+                r = _atomic(repo, f, defs, x, depth + 1)
+                return bool(r) and ("integer" in r or "index" in r or "int" in r)
+            return False
+        if intlike(e.left) and intlike(e.right):
+            return "integer arithmetic"
     if isinstance(e, ast.Call):
         cn = call_name(e)
         if cn in ("get_unique_var", "get_unique_name"):
@@ -94,6 +114,9 @@ def _atomic(repo: Repo, f: FunctionInfo, defs: Defs, e, depth=0) -> Optional[str
                         continue
                     if isinstance(s, ast.Call) and call_name(s) in ("get_unique_name", "get_unique_var", "int"):
                         rs.append(call_name(s) + "()")
+                        continue
+                    if isinstance(s, ast.IfExp) and all((isinstance(x, ast.Constant) and isinstance(x.value, int)) or (isinstance(x, ast.Call) and call_name(x) == "int") for x in (s.body, s.orelse)):
+                        rs.append("int")
                         continue
                     rs.append(None)
                 if all(rs):
@@ -147,6 +170,8 @@ def _neigh(chunks: List[Chunk], i: int) -> Tuple[str, str]:
             t = c.text.rstrip(" \t")
             if t:
                 left = t[-1]
+                if t != c.text and (t[-1].isalpha()):
+                    left = ""  # `if <hole>` : a keyword followed by blank is a boundary, not an operator
         else:
             left = "?"
         j -= 1
@@ -180,7 +205,8 @@ def rule_splice(repo: Repo) -> List[Ob]:
                 defs = Defs(f.node, f.params()[0] if f.params() else None)
             chunks = template_of(n, defs)
             text_shape = "".join(c.text if isinstance(c, Lit) else "{}" for c in chunks)
-            if text_shape.lstrip().startswith("#"):
+            first_lit = next((c.text.strip() for c in chunks if isinstance(c, Lit) and c.text.strip()), "")
+            if text_shape.lstrip().startswith("#") or first_lit.startswith("#"):
                 continue  # generated comment line
             if all(re.fullmatch(r"[A-Za-z0-9_]*", c.text) for c in chunks if isinstance(c, Lit)):
                 continue  # identifier construction (x0, _x1, C3, ind_name): no operator context at all
